@@ -99,6 +99,11 @@ def gen_params(rnd, typing_ok, feature):
         return [("v", "PosOnly", None, None), ("k", "KwOnly", None, rnd.choice([None, "0"]))]
     if feature == "po_var":       # def f(s, /, *a, e): `*args` right after the `/`
         return [("s", "PosOnly", None, None), ("a", "VarPos", None, None), ("e", "KwOnly", None, rnd.choice([None, "None"]))]
+    if feature.startswith("po_all"):   # every parameter positional-only: def clamp(x, lo, hi, /)
+        n = int(feature[-1])
+        with_defaults = rnd.random() < 0.5
+        return [(nm, "PosOnly", None, ("None" if with_defaults and i >= n - 1 - (n > 2) else None))
+                for i, nm in enumerate(["x", "lo", "hi"][:n])]
     names = ["a", "b", "c", "d", "e"]
     n = rnd.randint(0, 4)
     ps = []
@@ -167,6 +172,9 @@ class Mod:
         for f in (["po_kw", "po_var"] if idx == 0 else [rnd.choice(["po_kw", "po_var", None])]):
             if f:
                 self.fns.append(Fn(f"g_{f}", gen_params(rnd, typing_ok, f), None, comment=r() < 0.3))
+        # functions all of whose parameters are positional-only (the trailing `/` of the stub rendering)
+        for n in ([1, 2, 3] if idx == 4 else [k for k in (1, 2, 3) if r() < 0.15]):
+            self.fns.append(Fn(f"clamp{n}", gen_params(rnd, typing_ok, f"po_all{n}"), None, comment=r() < 0.3))
         # imports the source already holds in a non-module-level position (the confinement seam)
         self.tc_block = rnd.choice([None, "Circle", "Circle, Square"]) if idx != 1 else "Circle"
         self.try_import = (r() < 0.3) or idx == 1
@@ -191,6 +199,12 @@ class Mod:
                 ms.append(Fn(f"m{mi}", ps, rnd.choice([None, None, "int"]), kind=kind, comment=r() < 0.4,
                              nested=r() < 0.2, deco=(r() < 0.15 and kind == "method")))
             self.classes.append((f"K{ci}", ms, r() < 0.5))
+        if idx == 4 or r() < 0.15:
+            ms = [Fn("__eq__", [("other", "PosOnly", None, None)], None, kind="method"),
+                  Fn("pm", gen_params(rnd, typing_ok, f"po_all{rnd.randint(1, 3)}"), None, kind="method"),
+                  Fn("ps", gen_params(rnd, typing_ok, f"po_all{rnd.randint(1, 3)}"), None, kind="staticmethod"),
+                  Fn("pc", gen_params(rnd, typing_ok, f"po_all{rnd.randint(1, 3)}"), None, kind="classmethod")]
+            self.classes.append(("KP", ms, False))
         self.idx = idx
 
     def text(self):
